@@ -16,7 +16,6 @@ package proxycore
 
 import (
 	"context"
-	"encoding/binary"
 	"encoding/hex"
 	"errors"
 	"fmt"
@@ -314,19 +313,15 @@ func (c *ClientConn) Receive(reader io.Reader) error {
 // If an unprepared error is encountered it attempts to prepare the query on the connection and re-execute the original
 // request.
 func (c *ClientConn) maybePrepareAndExecute(request Request, raw *frame.RawFrame) bool {
-	code, err := readInt(raw.Body)
+	// The error has to be decoded to be recognized: the body may be compressed and the error code may be preceded by a
+	// tracing ID, warnings or a custom payload, so it can't be read from a fixed offset of the raw body.
+	frm, err := c.codec.ConvertFromRawFrame(raw)
 	if err != nil {
-		c.logger.Error("failed to read `code` in error response", zap.Error(err))
+		c.logger.Error("failed to decode error response", zap.Error(err))
 		return false
 	}
 
-	if primitive.ErrorCode(code) == primitive.ErrorCodeUnprepared {
-		frm, err := c.codec.ConvertFromRawFrame(raw)
-		if err != nil {
-			c.logger.Error("failed to decode unprepared error response", zap.Error(err))
-			return false
-		}
-		msg := frm.Body.Message.(*message.Unprepared)
+	if msg, ok := frm.Body.Message.(*message.Unprepared); ok {
 		id := hex.EncodeToString(msg.Id)
 		if prepare, ok := c.preparedCache.Load(id); ok {
 			err = c.Send(&prepareRequest{
@@ -567,11 +562,4 @@ func (r *prepareRequest) OnResult(raw *frame.RawFrame) {
 		next = true // Try the next node
 	}
 	r.origRequest.Execute(next)
-}
-
-func readInt(bytes []byte) (int32, error) {
-	if len(bytes) < 4 {
-		return 0, errors.New("[int] expects at least 4 bytes")
-	}
-	return int32(binary.BigEndian.Uint32(bytes)), nil
 }
